@@ -466,10 +466,10 @@ def check_two_orbits(case):
         cw = m6.T @ state_of(orb.propagate(at(epoch, case["t"])))
         kep = kepler_relative(case, x0q, t)
         errs.append(float(np.linalg.norm(cw[:3] - kep[:3])))
-    # largest separation met on the way (linear solution sampled 33 times): the neglected terms of the
+    # largest separation met on the way (linear solution sampled 13 times): the neglected terms of the
     # gravity gradient are ~ 3 n^2 S^2 / r; calibration over 3000 cases: err <= 9.2 S^2 / r for every |nt| <= 13
     x0q = np.array(case["x0"], float)
-    size = max(float(np.linalg.norm(np.asarray(hill.advance(n, x0q, t * j / 32), float)[:3])) for j in range(33))
+    size = max(float(np.linalg.norm(np.asarray(hill.advance(n, x0q, t * j / 12), float)[:3])) for j in range(13))
     bound = 20.0 * size**2 / case["sma"] * (1 + abs(n * t))
     floor = 2e-12 * case["sma"] * (1 + abs(n * t))
     if errs[0] > bound + floor:
